@@ -381,6 +381,64 @@ def c10_12(ck, prog, rid='C10.12'):
                     r.ok(key)
 
 
+def c10_13(ck, prog):
+    """Assertions that restate a scanning loop's exit condition must restate that condition."""
+    r = ck.rule('C10.13', 'a scanning loop over the bytes of a string and the assertion that follows it agree on the '
+                'character class: where a loop in dbus-string.c / dbus-string-util.c leaves at the first byte that is not '
+                'in a set of characters, and an assertion after the loop says "at the end, or the byte here is not in '
+                'the set", the two sets are the same (in builds with assertions)', 'TAB',
+                breaks='an input byte that is outside the loop\'s class but inside the assertion\'s (a bare line feed after '
+                '"AUTH ") stops the loop and fails the assertion: any client, before authenticating, aborts a bus built '
+                'with assertions', floor=2)
+    n = 0
+    for f in lib.prod_funcs(prog, {'dbus/dbus-string.c', 'dbus/dbus-string-util.c'}):
+        loops = lib.natural_loops(f)
+        if not loops:
+            continue
+
+        def chars(e):
+            out = set()
+            for x in walk(e):
+                if x.get('k') == 'bin' and x.get('op') in ('==', '!='):
+                    for a, b in ((x['l'], x['r']), (x['r'], x['l'])):
+                        if a.get('k') == 'sub' and is_int(b):
+                            out.add(b['v'])
+            return out
+        L = set()
+        last = 0
+        for h, body in loops:
+            for b in body:
+                t = f.blocks[b].get('term')
+                if t and isinstance(t.get('cond'), dict):
+                    c2 = chars(t['cond'])
+                    if c2:
+                        L |= c2
+                        last = max(last, t.get('line') or 0)
+        if not L:
+            continue
+        for b, i, c in f.calls('_dbus_real_assert'):
+            if c['line'] <= last or not c['args']:
+                continue
+            A = chars(c['args'][0])
+            restates = any(x.get('k') == 'bin' and x.get('op') == '==' and is_member(x.get('r'), 'len') or
+                           x.get('k') == 'bin' and x.get('op') == '==' and is_member(x.get('l'), 'len')
+                           for x in walk(c['args'][0]))
+            if not A or not restates:
+                continue
+            n += 1
+            key = '%s:assert@loop-exit' % f.name
+            if A != L:
+                def show(s2):
+                    return ', '.join(repr(chr(v)) if 0 < v < 128 else str(v) for v in sorted(s2))
+                r.violation(key, f.name, f.file, c['line'], 'the loop stops at the first byte outside {%s}, the assertion '
+                            'after it demands a byte outside {%s}: a byte in the difference aborts the process' % (
+                                show(L), show(A)))
+            else:
+                r.ok(key)
+    if n < 2 and ck.variant == 'A':
+        raise AnalysisBroken('scan loops followed by a restating assertion: only %d found' % n)
+
+
 def run(ck):
     ck.explanation = (
         'Static rules over dbus-transport.c, dbus-transport-socket.c, bus/driver.c, bus/connection.c: a corrupt '
@@ -396,6 +454,8 @@ def run(ck):
         c10_9(ck, prog)
         c10_10(ck, prog)
         c10_12(ck, prog)
+        if v == 'A':
+            c10_13(ck, prog)
         from rules import C16
         C16.c16_1(ck, prog, rid='C10.11', utf8_only=True)
         # a hostile descriptor packet must not leak descriptors in the bus (shared with C15.2)
